@@ -90,6 +90,11 @@ claimed = {
    note="One or two sends per history. Found and fixed the subscription-failure defect.",
    technique="SSA symbolic execution + SMT (symbolic amounts/minconf) with backend-answer enumeration",
    design="5 C20"),
+ "C06": dict(
+   text="Partly decided. (1) The real findEligibleOutputs (with UnspentOutputs, AddrAccount, LockedOutpoint, confirmed/confirms) on a wallet holding nine differently situated credits returns, for SYMBOLIC minconf, chain height and coinbase maturity and every scope/account query, exactly the statement's eligible set (solver-decided per coin). (2) The real txToOutputs/NewUnsignedTransaction/coin selectors on the watching-only wallet: inputs are eligible, pairwise distinct, an explicitly selected ineligible input is refused, and after publishing a created transaction a second one shares no input with it. NOT decided: signature validity (needs ECDSA/Schnorr and the script VM).",
+   note="Signature clause outside the technique. Bounded: one wallet state, one or two sends. Random picks explored exhaustively.",
+   technique="SSA symbolic execution + SMT (symbolic minconf/height/maturity), exhaustive exploration of selection orders",
+   design="5 C06"),
 }
 
 not_applicable = {
